@@ -247,7 +247,9 @@ fn main() {
                         return;
                     }
                     // converts: the whole configuration applied to the calculator of the *source* map, then the mode switch
-                    if u.cfg.src != u.cfg.dst {
+                    // (n_katu / n_geki / a full state do not exist on an osu! calculator — set there, they are dropped by design,
+                    // so such scores are not part of this comparison)
+                    if u.cfg.src != u.cfg.dst && sc.katu.is_none() && sc.geki.is_none() && sc.state.is_none() {
                         let mode = gen::game_mode(u.cfg.dst);
                         let via_try = sc.apply(Performance::new(&map).difficulty(d.clone())).try_mode(mode).ok().map(Performance::calculate);
                         let via_ignore = sc.apply(Performance::new(&map).difficulty(d.clone())).mode_or_ignore(mode).calculate();
